@@ -161,6 +161,12 @@ class Dim:
                         # (i, (j, ch)) of enumerate(char_indices()): j is the byte offset
                         return "B" if any(x[0] == "call" and x[1] and x[1].endswith("::next") for x in expr_walk(e)) and self._has_char_indices(fn, e) else "U"
                     return d
+            if e[2] in ("0",) and e[1][0] == "downcast" and e[1][2] == "Some":
+                cs = e[1][1]
+                while cs[0] in ("ref", "deref"):
+                    cs = cs[1]
+                if cs[0] == "call" and re.search(r"<impl usize>::checked_(sub|add)$", str(cs[1])) and len(cs[2]) == 2:
+                    return join(self.dim(fn, cs[2][0], depth=depth + 1, _vis=_vis), self.dim(fn, cs[2][1], depth=depth + 1, _vis=_vis))
             if e[2] in ("0", "1") and e[1][0] == "call" and e[1][1] in self.prog.fns:
                 # tuple result of a local helper: summarise each component separately
                 return self.tuple_ret_dim(e[1][1], int(e[2]))
@@ -198,6 +204,9 @@ class Dim:
                         if dc == "C" and r[2] == "0" and self._has_char_indices(fn, e) and "Enumerate" not in str(e):
                             dc = "B"
                 return join(dd, dc) or "U"
+            if re.search(r"<impl usize>::(saturating|wrapping)_(sub|add)$", c) and len(e[2]) == 2:
+                # a step that cannot leave the type: the dimension of its operands, like `+` / `-`
+                return join(self.dim(fn, e[2][0], depth=depth + 1, _vis=_vis), self.dim(fn, e[2][1], depth=depth + 1, _vis=_vis))
             if c.endswith("::min") or c.endswith("::max"):
                 d = None
                 for a in e[2]:
